@@ -285,6 +285,11 @@ func (p *Parser) parseVP8XChunks(buf []byte) error {
 		buf = buf[chunkTotal:]
 	}
 
+	// A still image must carry its VP8/VP8L chunk. Running out of data before
+	// reaching it means the file is truncated, not an image with zero frames.
+	if !isAnim && len(p.frames) == 0 {
+		return ErrTruncated
+	}
 	return nil
 }
 
